@@ -112,7 +112,7 @@ def op_line(op):
 
 
 def single_step_script(pre, op, note=""):
-    return "# C16 replay: %s\nN %d\n%s\n%s\n" % (note, len(pre["left"]), t_line(pre), op_line(op))
+    return "# C16 replay: %s\nN %d %d\n%s\n%s\n" % (note, len(pre["left"]), pre.get("scale", 0), t_line(pre), op_line(op))
 
 
 def gen_history(rnd, nkeys, steps):
@@ -120,7 +120,8 @@ def gen_history(rnd, nkeys, steps):
     (duplicates, with a different node object), deletes; the tree size sweeps
     between empty and full."""
     nn = nkeys + 2
-    lines = ["N %d" % nn]
+    # (the comparator of this history answers -1/0/1, the plain difference, or a multiple of it)
+    lines = ["N %d %d" % (nn, rnd.choice([0, 1, 1, 3, 1000003]))]
     free = list(range(1, nn + 1))
     member = {}          # node -> key
     present = {}         # key -> node
@@ -157,7 +158,7 @@ def gen_history(rnd, nkeys, steps):
 # ------------------------------------------------------------------ Python oracle (cross-check of TLC's)
 def struct_of(e, keys):
     return {"root": e["root"], "left": e["left"], "right": e["right"], "parent": e["parent"],
-            "height": e["height"], "key": keys}
+            "height": e["height"], "key": keys, "scale": e.get("sc", 0)}
 
 
 def py_struct_viols(t, S):
@@ -544,7 +545,7 @@ def write_triple_scripts(triples, sc, tag, per_file=6000):
             sp = sc.path(tag, "t%d.scr" % k)
             tp = sc.path(tag, "t%d.ndjson" % k)
             with open(sp, "w") as f:
-                f.write("N %d\n" % nn)
+                f.write("N %d %d\n" % (nn, [0, 1, 7][k % 3]))
                 for i, t in enumerate(chunk):
                     f.write(t_line(t["pre"]) + "\n" + op_line(t["op"]) + "\n")
                     index[(tp, 3 + 2 * i)] = t
